@@ -9,6 +9,10 @@ hook_commits = [l.split()[0] for l in hooks if "verif hooks" in l]
 
 T = "machine-checked proof in Coq + model/implementation correspondence"
 CLAIMS = {
+ "C11": ("proof", "logic half proved in Coq: (1) decidable footprint condition over the table of package-level variable uses REGENERATED from /repo on every run (outside init, package state is only read, or accessed under a lock / by the explicit host setter; no package-level math/rand calls; the package generator is touched only by Roll's nil-source fallback and GetCurSeed under the mutex), (2) schedule-independence theorem: steps that are functions of immutable shared state and the VM's own state give every VM, under EVERY interleaving, the state it reaches alone. Runtime half: N goroutines x own VMs (seeded/unseeded, 3 languages, random flags) compared with isolated runs, and the same workload under the Go race detector",
+         "trusted: Coq kernel+vm_compute, go/ast footprint scanner, harness; data-race freedom per the Go memory model is sampled evidence (race detector), not a theorem — partial", "DESIGN.md §6 C11"),
+ "C13": ("proof", "Coq theorems for all texts, all four delimiters, all escape choices: literal round trip lex(quote(escape s)) = s, generic in the escape table (table_ok re-established, table probed against the real lexer for every byte x delimiter on each run), representability hypothesis proved necessary; template level on a VM fragment: a hole leaves exactly one value whatever its code did above the saved height, templates concatenate segments and hole values in order, nest to the accepted depth, the 21st nested hole is an error; exact correspondence on random texts and templates through the real parser+VM",
+         "trusted: Coq kernel+vm_compute, harness; that arbitrary hole code respects its stack frame is an assumption validated by template runs (abstract hole code in the model)", "DESIGN.md §6 C13"),
  "C03": ("proof", "Coq theorems for every input and every final offset: Matched ++ RestInput = input, Matched is a white-space-trimmed prefix ending at or before the parser's offset, trimming is idempotent; the offset is tied to the PEG model of the regenerated grammar (K1). The positive half (text given back to RestInput contributes nothing) is REFUTED by a vm_compute witness on the parser model and recorded as a finding; outside the recorded call sites it is decided per input by a Go-vs-Go monitor (run the input, run Matched alone from the same seed and prior state: value, process text, variables, generator state, code)",
          "trusted: Coq kernel+vm_compute, harness, translator for Gen/Grammar.v; Model/Matched.v hand-written (exact Matched/Rest correspondence); contribution-freedom is validated case by case, not proved", "DESIGN.md §6 C03"),
  "C16": ("proof", "Coq theorem by reflection over the grammar and action table regenerated from /repo on every run: for EVERY byte string lacking the macro text `#EnableDice`, every setting of the other flags and every fuel, the PEG interpreter model emits no opcode of a disabled dice family and leaves the flag disabled; with DisableStmts set NO input can emit push.func/block.push/block.pop/ret or clear the flag. Generic soundness of the static gating analysis (memo replay, skip-code mode, non-rolled-back actions included) + side conditions gated(Gen.Grammar)=true by vm_compute; model tied by exact K1 correspondence; Config never written by Parse checked on the real parser",
